@@ -13,6 +13,8 @@ CellC == [b |-> Ones(9), r |-> <<>>]
 AddrA == [wc |-> Zeros(8), hash |-> Zeros(256)]
 AddrB == [wc |-> Ones(8), hash |-> Msb(256)]
 CC0 == [grams |-> <<>>, other |-> <<>>]
+BtLeaf(v) == [leaf |-> <<v>>, kids |-> <<>>]
+BtFork(l, r) == [leaf |-> <<>>, kids |-> <<l, r>>]
 AugV(es) == [es |-> es, post |-> <<>>]          \* augmented-dictionary value composed here: fork extras are ForkExtraV's
 
 RECURSIVE Menu(_), Base(_), Vary(_), BaseAlt(_), VaryAlt(_), Rich(_, _), RichAlt(_, _)
@@ -44,7 +46,8 @@ Base(t) ==
       [] t.k = "Ref" -> Base(t.t)
       [] t.k = "Named" -> BaseAlt(Schema[t.nm][1])
       [] t.k \in {"HmE"} -> <<>>
-      [] t.k = "Hm" -> <<[k |-> Zeros(t.n), v |-> Base(t.t)]>>
+      [] t.k \in {"Hm", "HmS"} -> <<[k |-> Zeros(t.n), v |-> Base(t.t)]>>
+      [] t.k = "BinTree" -> BtLeaf(Base(t.t))
       [] t.k = "Lite" -> Base(t.t)
       [] t.k = "HmAug" -> AugV(<<[k |-> Zeros(t.n), v |-> Base(t.t), x |-> Base(t.x)]>>)
       [] t.k = "HmAugE" -> [es |-> <<>>, post |-> <<>>, rx |-> Base(t.x)]
@@ -61,8 +64,11 @@ Vary(t) ==
       [] t.k = "Named" -> UNION {VaryAlt(Schema[t.nm][i]) : i \in 1..Len(Schema[t.nm])}
       [] t.k = "HmE" -> {<<>>} \cup {<<[k |-> Msb(t.n), v |-> x]>> : x \in Vary(t.t)}
                         \cup {<<[k |-> Zeros(t.n), v |-> Base(t.t)], [k |-> NatBits(1, t.n), v |-> Base(t.t)], [k |-> Ones(t.n), v |-> Base(t.t)]>>}
-      [] t.k = "Hm" -> {<<[k |-> Msb(t.n), v |-> x]>> : x \in Vary(t.t)}
+      [] t.k \in {"Hm", "HmS"} -> {<<[k |-> Msb(t.n), v |-> x]>> : x \in Vary(t.t)}
                        \cup {<<[k |-> Zeros(t.n), v |-> Base(t.t)], [k |-> Ones(t.n), v |-> Base(t.t)]>>}
+      [] t.k = "BinTree" -> {BtLeaf(x) : x \in Vary(t.t)}
+                            \cup {BtFork(BtLeaf(Base(t.t)), BtLeaf(Rich(t.t, 1))),
+                                  BtFork(BtFork(BtLeaf(Rich(t.t, 1)), BtLeaf(Base(t.t))), BtLeaf(Base(t.t)))}
       [] t.k \in {"If", "IfBit"} -> Vary(t.t)
       [] t.k = "Lite" -> {Base(t.t), Rich(t.t, 2)}
       [] t.k = "HmAug" -> {AugV(<<[k |-> Msb(t.n), v |-> x, x |-> Rich(t.x, 1)]>>) : x \in Vary(t.t)}
@@ -109,7 +115,8 @@ Rich(t, fuel) ==
       [] t.k = "Either" -> [side |-> 1, v |-> Rich(t.r, fuel)]
       [] t.k \in {"Ref", "Lite", "If", "IfBit"} -> Rich(t.t, fuel)
       [] t.k = "Named" -> IF fuel = 0 THEN Base(t) ELSE RichAlt(Schema[t.nm][Len(Schema[t.nm])], fuel - 1)
-      [] t.k \in {"HmE", "Hm"} -> <<[k |-> [i \in 1..t.n |-> IF i = 1 THEN 0 ELSE (IF i % 3 = 0 THEN 0 ELSE 1)], v |-> Rich(t.t, fuel)],
+      [] t.k = "BinTree" -> BtFork(BtLeaf(Rich(t.t, fuel)), BtLeaf(Base(t.t)))
+      [] t.k \in {"HmE", "Hm", "HmS"} -> <<[k |-> [i \in 1..t.n |-> IF i = 1 THEN 0 ELSE (IF i % 3 = 0 THEN 0 ELSE 1)], v |-> Rich(t.t, fuel)],
                                    [k |-> Ones(t.n), v |-> Base(t.t)]>>
       [] t.k = "HmAug" -> AugV(<<[k |-> [i \in 1..t.n |-> IF i = 1 THEN 0 ELSE (IF i % 3 = 0 THEN 0 ELSE 1)], v |-> Rich(t.t, fuel), x |-> Rich(t.x, 1)],
                                  [k |-> Ones(t.n), v |-> Base(t.t), x |-> Base(t.x)]>>)
